@@ -17,6 +17,9 @@ CLAIMED["C06"] = ("4 C06", "Seeded simulation of two replicas of one Brownian ob
 CLAIMED["C07"] = ("4 C07", "Seeded simulation of long and adversarial query histories (random, solver-shaped sweeps forward/backward with ulp-long clipped last steps, real sdeint on default/Tree/Path Brownian motion) under a deterministic profile-hook monitor: no exception, Python call depth <= 150 per call, cache entries <= cache_size, call events per call within a budget proportional to the designed tree size (bounded liveness).",
          "Depth/work measured in Python call events; histories whose designed dependency-tree size exceeds 8192 are truncated (cost proportional to that size is by design); sampled histories.",
          TECH + "; safety + bounded-liveness monitors (stack depth, cache bound, step budget) on every service call")
+CLAIMED["C04"] = ("4 C04", "Seeded simulation through the randomness seam: the object carries a label axis and every normal draw is answered with unit label vectors, so each returned value is its exact coefficient vector over independent N(0,1) sources; the Gram matrix of all answers of a faulted query history is compared with the exact covariance of Brownian-motion functionals (incl. bridge with supplied W/H, cross-element independence). Davie/Foster: the Levy draw is forced to 0 and to every basis tensor, recovering conditional mean and variance exactly. Exact oracle per run; coverage of histories is sampled.",
+         "Assumes draws with different seeds are independent standard normals (torch generator, numpy SeedSequence trusted) and that W/H arithmetic is element-wise over leading axes; float64; 1e-9 relative with exact-rational confirmation.",
+         TECH + "; exact covariance (Gram matrix) through an owned randomness seam vs a Brownian covariance reference model")
 NA = {}
 def main():
     checks = []
